@@ -31,7 +31,7 @@ def gen_cases(sh):
                         yield q, A, B, None, None
     elif src == 'c02':
         sp_ = c02.space(tier, seed)
-        tabs = list(qcheck.tables_upto(sp_['rows'], sp_['maxrows']))
+        tabs = list(qcheck.tables_upto(sp_['rows'], sp_['maxrows'])) + [qcheck.long_table(sp_['rows'], 2)]
         for q in sp_['qs'][lo:hi]:
             B = sp_['B'] if q['join'] is not None else None
             for A in tabs:
@@ -56,9 +56,15 @@ def gen_cases(sh):
         maxrows = 3 if tier == 'thorough' else 2
         ta = list(qcheck.tables_upto(sp_['rowsA'], maxrows))
         tb = list(qcheck.tables_upto(sp_['rowsB'], maxrows))
+        k = sp_['k']
+        bigB = [[k, 'm1'], ['zz', 'm2'], [k, 'm3'], [k, 'm4'], ['zz', 'm5']]
+        bigA = [[k, 'q'], ['zz', 'm5'], ['none', 'x'], [k, 'm4'], [k, 'm1']]
         for q in sp_['qs'][lo:hi]:
             for B in tb:
                 for A in ta:
+                    yield q, A, B, None, None
+            for B in (bigB, bigB[::-1], bigB[:4]):
+                for A in (bigA, bigA[:2], bigA[2:]):
                     yield q, A, B, None, None
         if lo == 0:
             ha = list(qcheck.tables_upto(sp_['hrowsA'], 2))
